@@ -39,6 +39,10 @@ CHECKS['C20'] = dict(level='proof', design='1/C20', engine='E-REAL',
      technique='symbolic execution of the real matrix templates by operator overloading (term-building scalar, rational functions with cleared denominators), every comparison path enumerated; z3 nlsat decides each QF_NRA identity; counterexamples replayed with the double instantiation',
      text='asl Matrix3_/Matrix4_/Matrix_/Quaternion_ templates are instantiated with a scalar that builds SMT-LIB Real terms, so the formulas are produced by running the real inverse(), det(), operator*, solve()/solve_() (every pivot order = one path with its own path condition) and Matrix4::rotation() (all four branches); z3 proves M*inv(M)=inv(M)*M=I and det=reference determinant (3x3 affine, 4x4), det(AB)=det(A)det(B), A*solve(A,b)=b for n=2,3 (thorough 4), the normal equations for 3x2 (thorough 4x2, 4x3) and unit quaternion -> matrix -> quaternion = +-q, as identities over all reals.',
      note='Only the dimension is bounded. Outside: floating-point residual clause, all conversions through sin/cos/atan2/acos (axis-angle, Euler). Matrix3 products are defined for affine matrices (last row 0 0 1) only, as documented. Trusted: z3 nlsat, engine/symreal.h.')
+CHECKS['C12'] = dict(level='model_checking', design='1/C12', engine='E-CBMC + E-SYM',
+     technique='cbmc partial-order encoding of all thread interleavings over C translated from the clang IR of the real atomic.h/Mutex.h operators (AtomicCount, Atomic<int>); plus bounded symbolic execution (z3) of sequential copy/assign/drop histories of Array/Map/HashMap/Shared handles',
+     text='Interleavings: the IR that atomic.h and Mutex.h compile to for ++/--/+=/-= on a global AtomicCount and Atomic<int> is translated to C and cbmc decides, for every interleaving of 2-3 threads with up to 3 operations each, that the final value is the initial value plus the sum of all operations (each scenario has a reachability witness; counterexamples are confirmed by a native multi-thread stress run). Sequential: every history of copy/assign/drop operations on three handles keeps each payload alive while referenced and destroys it exactly once.',
+     note='PARTIAL: the handle protocols under interleavings are NOT decided (cbmc 6.11 rejects concurrent programs that share heap objects through pointers); only their sequential histories are. Sequential consistency assumed. Trusted: cbmc, z3, engine/ll2c_atomic.py.')
 NA = {
 }
 ALL = ['C%02d' % i for i in range(1, 21)]
